@@ -133,8 +133,18 @@ def gen_cases(c):
         comps += [p, b"ok" + p, p + b"ok", b"\xe2\x82\xac" + p]
     for _ in range(300 if c.tier == "quick" else 5000):
         comps.append(bytes(rng.randrange(256) for _ in range(rng.randrange(0, 12))))
-    U = comps
     I = [x for x in comps if len(x) <= 600]
+    # ASCII runs of every length 0..70 (a word-at-a-time fast path would have its edges here) in front of / behind every
+    # ill-formed piece, at 4 different offsets, and the well-formed twin
+    runs = []
+    for run in range(0, 71):
+        for off in range(4):
+            pre = b"\xe2\x82\xac"[:0] + b"\xc3\xa9" * (off // 2) + b"z" * (off % 2)
+            for p in BAD_PIECES[:: (1 if c.tier == "thorough" else 4)]:
+                runs.append(pre + b"a" * run + p + b"tail")
+                runs.append(pre + p + b"a" * run)
+            runs.append(pre + b"a" * run + b"\xf0\x9f\x98\x80" + b"a" * run)
+    U = comps + runs
     return D, U, I
 
 
@@ -164,6 +174,15 @@ def gen_files(c):
         ls = [line() for _ in range(rng.randrange(1, 12))]
         data = b"\n".join(ls) + (b"\n" if rng.random() < 0.8 else b"")
         files.append(data)
+    # long lines (longer than any fixed-size prefix a tool might look at) with one ill-formed byte at the start / middle / very end,
+    # and their well-formed twins; bytes behind a NUL
+    for n in (300, 5000, 70000) if c.tier == "quick" else (300, 5000, 70000, 300000):
+        good = (b"abc \xc3\xa9 \xe2\x82\xac " * (n // 11 + 1))[:n]
+        while not py_is_utf8(good):
+            good = good[:-1]
+        for pos in (0, len(good) // 2, len(good)):
+            files.append(b"ok\n" + good[:pos] + b"\xff" + good[pos:] + b"\n" + good + b"\nend\n")
+    files += [b"a\x00\xff\n", b"\x00\xc0\xaf\nfine\n", b"fine\x00\nfine\x00\xe2\x82\n"]
     # one long file crossing reader buffers
     ls = [line() for _ in range(3000)]
     files.append(b"\n".join(ls) + b"\n")
@@ -226,6 +245,10 @@ def main(argv):
         log("  note: " + note[:300])
     if c.tier == "thorough":
         coqchk(c)
+    # cross-property link (Utf8/FiltersInstance.v: the wf_utf8 of the C18 filter models = the model of the real IsUTF8);
+    # recorded in the evidence, not one of C12's obligations (it depends on C18's model and translator)
+    ok_inst, ilog = coq_make(["theories/Utf8/FiltersInstance.vo"], timeout=900)
+    c.cov["filters_instance_for_C18"] = "compiled" if ok_inst else ("not compiled: " + " ".join(ilog.split())[-300:])
     drv, dlog = build_driver("C12")
     impl = hx_bin("hx_utf8")
     tool = repo_bin("remove_invalid_utf8")
@@ -355,10 +378,13 @@ def main(argv):
     if rp is not None and rp.get("op") == "remove_invalid_utf8" and rp.get("stdin_hex") is not None:
         files.insert(0, bytes.fromhex(rp["stdin_hex"]))
     model_out = None
+    # the record splitter of Base/Lines.v uses the quadratic List.rev: files with very long lines go to the oracle only
+    for_model = [max([len(l) for l in f.split(b"\n")] or [0]) <= 6000 for f in files]
     if drv is not None:
-        rc, mo, err = run_lines(drv, ["R " + hexs(f) for f in files])
-        if len(mo) == len(files):
-            model_out = mo
+        rc, mo, err = run_lines(drv, ["R " + hexs(f) for f, okm in zip(files, for_model) if okm])
+        if len(mo) == sum(for_model):
+            it = iter(mo)
+            model_out = [next(it) if okm else None for okm in for_model]
         else:
             c.broken.append("driver died on tool-level cases: " + err[-300:])
     tool_dis = 0
@@ -371,7 +397,7 @@ def main(argv):
             c.violation("tool-status: remove_invalid_utf8 ended with %s on a %d-byte input" % (st, len(data)),
                         {"op": "remove_invalid_utf8", "stdin_hex": hexs(data[:2000]), "status": str(st)})
             continue
-        if model_out is not None and model_out[idx] != "OK " + hexs(so):
+        if model_out is not None and model_out[idx] is not None and model_out[idx] != "OK " + hexs(so):
             tool_dis += 1
             if tool_dis == 1:
                 c.broken.append("correspondence remove_invalid_utf8 tool vs model: stdin %s model %s impl %s" % (
@@ -406,7 +432,7 @@ def main(argv):
     #      write exactly the stripped, new, non-delimiter, well-formed lines
     SP = b"\t\n\x0b\x0c\r "
     MAGIC = b"df6fa1abb58549287111ba8d776733e9"
-    for data in files[:40] + [files[-1]]:
+    for data in (files if c.tier == "thorough" else files[:40] + [f for f in files[40:] if len(f) > 250]):
         st, so, se = run_tool([repo_bin("commoncrawl_dedupe")], stdin=data, timeout=60)
         c.count(("ccd", data), nontrivial=len(data) > 0, bucket="tool/commoncrawl_dedupe")
         c.cov["traces_validated_against_impl"] += 1
@@ -430,6 +456,36 @@ def main(argv):
                         {"op": "commoncrawl_dedupe", "kind": "output", "stdin_hex": hexs(data[:4000]), "stdout_hex": hexs(so[:4000]),
                          "expected_hex": hexs(b"".join(l + b"\n" for l in want)[:4000])})
 
+    # commoncrawl_dedupe with a file of lines to exclude: still only well-formed lines, minus the excluded ones
+    rm_lines = [b"abc", b"  \xc3\xa9  ", b"\xff", b"a\x00b"]
+    rm_path = os.path.join(SCRATCH, "remove_these")
+    os.makedirs(SCRATCH, exist_ok=True)
+    open(rm_path, "wb").write(b"".join(l + b"\n" for l in rm_lines))
+    rm_set = set(l.strip(SP) for l in rm_lines)
+    for data in files[:25]:
+        data = data + b"\nabc\n\xc3\xa9\nkept \xe2\x82\xac\nbad\xc0\xaf\n"
+        st, so, se = run_tool([repo_bin("commoncrawl_dedupe"), rm_path], stdin=data, timeout=60)
+        c.count(("ccd-remove", data), bucket="tool/commoncrawl_dedupe-with-remove-file")
+        c.cov["traces_validated_against_impl"] += 1
+        seen, want = set(rm_set), []
+        lines_in = data.split(b"\n")
+        if lines_in and lines_in[-1] == b"":
+            lines_in.pop()
+        for l in lines_in:
+            l = l.strip(SP)
+            if l.startswith(MAGIC) or l in seen:
+                continue
+            seen.add(l)
+            if py_is_utf8(l):
+                want.append(l)
+        if st != 0 or so != b"".join(l + b"\n" for l in want):
+            bad = [l for l in so.split(b"\n")[:-1] if not py_is_utf8(l)]
+            c.violation("tool/commoncrawl_dedupe-remove-file: with a file of lines to exclude the output %s (status %s)" % (
+                "contains the ill-formed line %r" % bad[0] if bad else "differs from the stripped, first-seen, not excluded, well-formed lines", st),
+                {"op": "commoncrawl_dedupe", "kind": "remove-file", "remove_file_hex": hexs(open(rm_path, "rb").read()), "stdin_hex": hexs(data[:4000]),
+                 "stdout_hex": hexs(so[:4000]), "expected_hex": hexs(b"".join(l + b"\n" for l in want)[:4000])})
+            break
+
     # ---- foldfilter hands its child pieces of (well-formed) lines: every piece must be well-formed, whatever the width
     good_lines = []
     for _ in range(25 if c.tier == "quick" else 250):
@@ -438,7 +494,7 @@ def main(argv):
                                    for _ in range(n)).replace(b"\n", b"").replace(b"\r", b"").replace(b"\x00", b"a"))
     data = b"".join(l + b"\n" for l in good_lines)
     for width in (1, 2, 3, 4, 5, 7, 10, 40):
-        for extra in ([], ["-s"]):
+        for extra in ([], ["-s"], ["-d", ",.\u3002\u20ac"], ["-s", "-d", "\u00e9 "]):
             seen_path = os.path.join(SCRATCH, "pieces")
             os.makedirs(SCRATCH, exist_ok=True)
             if os.path.exists(seen_path):
